@@ -10,7 +10,8 @@ import itertools
 CONTIGS = [('chr1', 1000), ('chr2', 1000)]
 CONTIG_NAMES = [c for c, _ in CONTIGS]
 BED = [('chr1', 100, 200, 'regA'), ('chr1', 400, 500, 'regB'), ('chr2', 100, 200, 'regC')]
-BLACKLIST = {'chr1': [(400, 500)], 'chr2': [(650, 750)]}
+# deliberately NOT coordinate sorted (a BED file need not be): decoy intervals far from every read precede and follow the hitting one
+BLACKLIST = {'chr1': [(900, 950), (400, 500), (10, 20)], 'chr2': [(880, 890), (650, 750)]}
 
 BASE = {'role': 'R1', 'qcfail': False, 'dup': False, 'RR': False, 'mapq': 60, 'proper': True, 'mate_unmapped': False,
         'unmapped': False, 'cigar': '10M', 'NM': 0, 'XA': None, 'NH': None, 'mp': 'unique', 'SM': 'A', 'XT': 'g1',
